@@ -42,11 +42,13 @@ def gen_scn(rng):
     return dict(a, params=pa), dict(b, params=pb), msgs, sfcap
 
 
-def run_fault(A, B, msgs, fault):
+def run_fault(A, B, msgs, fault, msgs_back=()):
     """fault = None or (src, index, 'drop'|'dup'); returns (PeerRun, frames per link)."""
     pr = PeerRun([A, B])
     for m in msgs:
         pr.send(0, hx(m))
+    for m in msgs_back:
+        pr.send(1, hx(m))
     count = {0: 0, 1: 0}
     steps = 0
     idle_rounds = 0
@@ -113,7 +115,69 @@ def oracle_fault(pr, msgs, fault, sfcap, hit_msg):
     return fails
 
 
+def missing_of(got, exp, sfcap, dup):
+    """indices of expected payloads not delivered (in order); None when a delivery is not a sent payload in order"""
+    pos, last, missing = 0, None, []
+    for g in got:
+        if g == last and len(g) // 2 <= sfcap and dup:
+            continue
+        while pos < len(exp) and exp[pos] != g:
+            missing.append(pos)
+            pos += 1
+        if pos >= len(exp):
+            return None
+        last = g
+        pos += 1
+    return missing + list(range(pos, len(exp)))
+
+
+def oracle_duplex_fault(pr, ma, mb, fault, sfcap):
+    """both directions carry messages at once: one lost or duplicated frame costs at most ONE message in total, everything else is
+    delivered in order, and after the timeouts both sides are idle again"""
+    fails = []
+    if pr.crashed:
+        fails.append(('C11:exception-escaped', 'exception escaped'))
+    dup = fault is not None and fault[2] == 'dup'
+    m1 = missing_of(pr.delivered[1], [hx(m) for m in ma], sfcap, dup)
+    m0 = missing_of(pr.delivered[0], [hx(m) for m in mb], sfcap, dup)
+    if m1 is None or m0 is None:
+        fails.append(('C11:corrupted-or-reordered-delivery', 'a delivered payload is not a sent payload in order'))
+    elif len(m1) + len(m0) > 1:
+        fails.append(('C11:more-than-one-message-lost', 'missing A->B %s, B->A %s (fault %s)' % (m1, m0, fault)))
+    for k in (0, 1):
+        l = pr.impl[k].layer
+        if l.transmitting() or l.is_rx_active():
+            fails.append(('C11:not-idle-after-timeouts', 'side %d: transmitting=%s rx_active=%s (fault %s)' % (k, l.transmitting(), l.is_rx_active(), fault)))
+    return fails
+
+
 def run_shard(campaign, shard, nshards, seed, tier):
+    if campaign == 'duplex_faults':
+        part = Part()
+        rng = random.Random('%s/%s' % (seed, campaign))
+        idx = 0
+        for _ in range(10 if tier != 'thorough' else 200):
+            a, b = rand_inst_pair(rng, asym_prob=0.1)
+            pa = {'blocksize': rng.choice([1, 2, 3]), 'stmin': rng.choice([0, 5]), 'max_frame_size': 4095}
+            pb = {'blocksize': rng.choice([1, 2, 3]), 'stmin': rng.choice([0, 5]), 'max_frame_size': 4095}
+            A, B = dict(a, params=pa), dict(b, params=pb)
+            mk = lambda: [bytes(rng.getrandbits(8) for _ in range(rng.choice([20, 33, 45]))) for _ in range(rng.randint(1, 2))]
+            ma, mb = mk(), mk()
+            if len(set(ma)) != len(ma) or len(set(mb)) != len(mb):
+                continue
+            base, count = run_fault(A, B, ma, None, mb)
+            positions = [(src, i, kind) for src in (0, 1) for i in range(count[src]) for kind in ('drop', 'dup')]
+            for fault in positions:
+                idx += 1
+                if idx % nshards != shard:
+                    continue
+                pr, _ = run_fault(A, B, ma, fault, mb)
+                part.hist('fault', 'duplex/%s/%s' % ('A->B' if fault[0] == 0 else 'B->A', fault[2]))
+                fails = oracle_duplex_fault(pr, ma, mb, fault, 6)
+                sample = {'A': A, 'B': B, 'lens_A': [len(m) for m in ma], 'lens_B': [len(m) for m in mb], 'fault': fault}
+                C01.check_against_model(part, campaign, pr, fails, sample, THEOREMS)
+                part.sample(sample)
+        return part.result()
     part = Part()
     rng = random.Random('%s/%s' % (seed, campaign))      # same scenarios in every shard, positions sharded
     quick = tier != 'thorough'
@@ -143,5 +207,6 @@ def run_shard(campaign, shard, nshards, seed, tier):
 
 def run(ctx):
     run_sharded(ctx, 'C11', 'faults')
+    run_sharded(ctx, 'C11', 'duplex_faults')
     ctx.exhaustive['every frame index of both link directions x {drop, duplicate} for each generated scenario'] = True
     return RULE, ASSUME
